@@ -110,11 +110,23 @@ CHECKS: Dict[str, Any] = {
         components={"real": COMPONENTS["real"] + ["scipy.optimize.minimize for 'real' and 'wander_after_real' calls and in clamp construction"],
                     "stub": COMPONENTS["stub"] + ["scipy.optimize.minimize inside optimize.optimizer for stall/wander/degenerate calls (SimMinimizer)",
                                                     "time.time in optimize.optimizer (SimClock)", "np.random (seeded per run; biased proxy in clamps.surface)"]}),
+    "C06": EngineCheck("C06", "render_check", "exploration",
+        "one evaluation = one simulated write(path, debug_path) of a generated user script (1-4 jittered lofts with rotated corner numbering, "
+        "optionally a box / extrude / revolve and a shape: cylinder, frustum, ring, hemisphere, copied hemisphere, cylinder+chained hemisphere; "
+        "patches on any sides incl. lists and duplicates, cell zones, side / corner / edge projections with user geometry, merged pairs, default "
+        "patch, modify_patch, settings, a deletion) under an address layout for id() (sequential / shuffled) and a simulated hash order of "
+        "patch-name sets; the bytes captured at the file-system seam are parsed by an independent reader and compared with a reference renderer. "
+        "distinct_nontrivial counts distinct (program digest, event-log digest) among executions whose program declares at least one patch side "
+        "or projected side.",
+        ["the reference takes hex operations from the program text; for shape-built / derived operations it reads the operation's public state "
+         "(points, patch names, zone, projections) before assembly - how shapes lay out their operations is C11, not claimed",
+         "the harness's own side / edge tables (blockMesh user guide) are correct", "the blockMeshDict and legacy-VTK readers are correct",
+         "edge entries are checked only for index validity and defined geometry (their content is C07, not claimed)"], ["k"]),
 }
 
 
-ENGINES = ["propagation", "vertices", "lifecycle", "optimizer"]
-SELFTEST_SEEDS = {"propagation": 40, "vertices": 100, "lifecycle": 100, "optimizer": 16}
+ENGINES = ["propagation", "vertices", "lifecycle", "optimizer", "render"]
+SELFTEST_SEEDS = {"propagation": 40, "vertices": 100, "lifecycle": 100, "optimizer": 16, "render": 60}
 
 
 def engine_module(name: str):
